@@ -1,1 +1,733 @@
-/-! Property theorems for C13 — placeholder until the property's model is built. -/
+import FcpptModel.Spec.C13
+import FcpptProofs.C13.Sets
+import FcpptProofs.C13.Arith
+set_option linter.unusedSimpArgs false
+/-!
+# C13 — property theorems: boxes are half-open point sets
+
+For every dimension `n`, all boxes with integer corners (no bound on the coordinates; inverted and
+degenerate boxes included) and all points of ℤ^n.  `Mem b p` is `pos_i ≤ p_i < max_i` for all `i`.
+Functions that perform arithmetic in the coordinate type `t` are stated in three regimes: results
+representable (then the exact mathematical value), signed and not representable (fault =
+undefined behaviour), unsigned (value modulo 2^bits).
+-/
+namespace Fcppt.C13
+variable {n : Nat}
+
+/-! ## membership, intersection, intersects, contains, bounding box -/
+
+/-- `contains_point` is membership in the half-open point set. -/
+theorem containsPoint_iff_mem (b : Box n) (p : Vec n) : containsPoint b p = true ↔ Mem b p :=
+  containsPoint_iff b p
+
+/-- `intersection` never faults (for any coordinate type). -/
+theorem intersection_total (t : Ty) (a b : Box n) : ∃ r, intersection t a b = .ok r := by
+  unfold intersection
+  split
+  · exact ⟨_, rfl⟩
+  · exact ⟨_, null_eq t n⟩
+
+/-- The intersection contains exactly the common points — for *all* boxes, empty or inverted ones included. -/
+theorem mem_intersection (t : Ty) (a b r : Box n) (h : intersection t a b = .ok r) (p : Vec n) :
+    Mem r p ↔ Mem a p ∧ Mem b p := by
+  unfold intersection at h
+  split at h
+  · cases h
+    constructor
+    · intro hm
+      refine ⟨fun i => ?_, fun i => ?_⟩ <;>
+      · have := hm i
+        simp only [Fin.getElem_fin, initMax_min, initMax_max] at this ⊢
+        omega
+    · rintro ⟨ha, hb⟩ i
+      have := ha i
+      have := hb i
+      simp only [Fin.getElem_fin, initMax_min, initMax_max] at *
+      omega
+  · rename_i hni
+    rw [null_eq] at h
+    cases h
+    have hf : intersects a b = false := by simpa using hni
+    obtain ⟨i, hi⟩ := (intersects_false_iff a b).1 hf
+    have hn : 0 < n := Nat.lt_of_le_of_lt (Nat.zero_le _) i.isLt
+    constructor
+    · intro hm
+      exact absurd hm (not_mem_null hn p)
+    · rintro ⟨ha, hb⟩
+      exfalso
+      have := ha i
+      have := hb i
+      simp only [Fin.getElem_fin] at *
+      omega
+
+/-- When `intersects` is false the result is the null box (all coordinates 0) … -/
+theorem intersection_null_of_not_intersects (t : Ty) (a b : Box n) (h : intersects a b = false) :
+    intersection t a b = .ok ⟨vzero n, vzero n⟩ := by
+  simp [intersection, h, null_eq]
+
+/-- … in particular whenever the two boxes have no common point and are non-empty
+    (for non-empty boxes `intersects` is exactly "a common point exists", next theorem). -/
+theorem intersects_iff_common_point (a b : Box n) (ha : NonEmpty a) (hb : NonEmpty b) :
+    intersects a b = true ↔ ∃ p, Mem a p ∧ Mem b p := by
+  have ha' := (nonEmpty_iff a).1 ha
+  have hb' := (nonEmpty_iff b).1 hb
+  rw [intersects_iff]
+  constructor
+  · intro h
+    refine ⟨Vector.ofFn fun i => Max.max a.min[i] b.min[i], fun i => ?_, fun i => ?_⟩ <;>
+    · have := h i
+      have := ha' i
+      have := hb' i
+      simp only [Fin.getElem_fin, Vector.getElem_ofFn] at *
+      omega
+  · rintro ⟨p, hpa, hpb⟩ i
+    have := hpa i
+    have := hpb i
+    simp only [Fin.getElem_fin] at *
+    omega
+
+/-- A common point forces `intersects` (no non-emptiness needed). -/
+theorem intersects_of_common_point (a b : Box n) (p : Vec n) (hpa : Mem a p) (hpb : Mem b p) : intersects a b = true := by
+  rw [intersects_iff]
+  intro i
+  have := hpa i
+  have := hpb i
+  simp only [Fin.getElem_fin] at *
+  omega
+
+theorem intersection_null_of_disjoint (t : Ty) (a b : Box n) (ha : NonEmpty a) (hb : NonEmpty b)
+    (hd : ¬ ∃ p, Mem a p ∧ Mem b p) : intersection t a b = .ok ⟨vzero n, vzero n⟩ := by
+  apply intersection_null_of_not_intersects
+  rw [← Bool.not_eq_true, intersects_iff_common_point a b ha hb]
+  exact hd
+
+/-- `contains(outer, inner)`, for a non-empty inner box, is the subset relation of the point sets. -/
+theorem contains_iff_subset (outer inner : Box n) (hi : NonEmpty inner) :
+    contains outer inner = true ↔ Subset inner outer := by
+  rw [contains_iff, subset_iff outer inner hi]
+
+/-- `contains` implies subset for every inner box (also empty ones). -/
+theorem subset_of_contains (outer inner : Box n) (h : contains outer inner = true) : Subset inner outer := by
+  rw [contains_iff] at h
+  intro p hp i
+  have := h i
+  have := hp i
+  simp only [Fin.getElem_fin] at *
+  omega
+
+/-- The bounding box contains both boxes (as corner-wise `contains`, hence as point sets). -/
+theorem extendBox_contains (a b : Box n) :
+    contains (extendBox a b) a = true ∧ contains (extendBox a b) b = true := by
+  simp only [contains_iff, extendBox]
+  refine ⟨fun i => ?_, fun i => ?_⟩ <;>
+  · simp only [Fin.getElem_fin, initMax_min, initMax_max]
+    omega
+
+theorem extendBox_upper (a b : Box n) : Subset a (extendBox a b) ∧ Subset b (extendBox a b) :=
+  ⟨subset_of_contains _ _ (extendBox_contains a b).1, subset_of_contains _ _ (extendBox_contains a b).2⟩
+
+/-- … and it is the least such box: every box whose point set contains both non-empty boxes
+    contains the bounding box. -/
+theorem extendBox_least (a b c : Box n) (ha : NonEmpty a) (hb : NonEmpty b)
+    (hac : Subset a c) (hbc : Subset b c) : contains c (extendBox a b) = true ∧ Subset (extendBox a b) c := by
+  have h1 := (subset_iff c a ha).1 hac
+  have h2 := (subset_iff c b hb).1 hbc
+  have hc : contains c (extendBox a b) = true := by
+    rw [contains_iff]
+    intro i
+    have := h1 i
+    have := h2 i
+    simp only [Fin.getElem_fin, extendBox, initMax_min, initMax_max] at *
+    omega
+  exact ⟨hc, subset_of_contains _ _ hc⟩
+
+/-- the bounding box of two non-empty boxes is non-empty -/
+theorem extendBox_nonEmpty (a b : Box n) (ha : NonEmpty a) : NonEmpty (extendBox a b) := by
+  obtain ⟨p, hp⟩ := ha
+  exact ⟨p, (extendBox_upper a b).1 p hp⟩
+
+/-- `extend_bounding_box(box, point)`: the least box that contains `box` corner-wise and has the
+    point in its *closed* hull (the point itself is not a member when it lies on or beyond `max`). -/
+theorem extendPoint_spec (b : Box n) (p : Vec n) :
+    contains (extendPoint b p) b = true ∧ MemClosed (extendPoint b p) p ∧
+    ∀ c : Box n, contains c b = true → MemClosed c p → contains c (extendPoint b p) = true := by
+  refine ⟨?_, ?_, ?_⟩
+  · rw [contains_iff]
+    intro i
+    simp only [Fin.getElem_fin, extendPoint, initMax_min, initMax_max]
+    omega
+  · intro i
+    simp only [Fin.getElem_fin, extendPoint, initMax_min, initMax_max]
+    omega
+  · intro c hc hp
+    rw [contains_iff] at *
+    intro i
+    have := hc i
+    have := hp i
+    simp only [Fin.getElem_fin, extendPoint, initMax_min, initMax_max] at *
+    omega
+
+/-- a point inside the box leaves it unchanged -/
+theorem extendPoint_of_mem (b : Box n) (p : Vec n) (h : Mem b p) : extendPoint b p = b := by
+  apply box_ext <;>
+  · intro i
+    have := h i
+    simp only [Fin.getElem_fin, extendPoint, initMax_min, initMax_max] at *
+    omega
+
+/-! ## constructors, `size`, `pos`, `max`, `init_max`, `init_dim`, `null` -/
+
+/-- `Box(pos, size)`: `pos()` is `pos`, `max()` is `pos + size` (sums representable). -/
+theorem mkPosSize_spec (t : Ty) (pos sz : Vec n) (h : ∀ i : Fin n, t.Rep (pos[i] + sz[i])) :
+    mkPosSize t pos sz = .ok ⟨pos, vadd pos sz⟩ := by
+  unfold mkPosSize
+  rw [Ty.normV_ok t _ (fun i => by simpa using h i)]
+  rfl
+
+theorem mkPosSize_signed_overflow (t : Ty) (hs : t.signed = true) (pos sz : Vec n) (h : ¬ ∀ i : Fin n, t.Rep (pos[i] + sz[i])) :
+    mkPosSize t pos sz = .error .signedOverflow := by
+  unfold mkPosSize
+  rw [Ty.normV_signed_err t hs _ (fun h2 => h fun i => by simpa using h2 i)]
+  rfl
+
+theorem mkPosSize_unsigned (t : Ty) (hs : t.signed = false) (pos sz : Vec n) :
+    mkPosSize t pos sz = .ok ⟨pos, (vadd pos sz).map (· % 2 ^ t.bits)⟩ := by
+  unfold mkPosSize
+  rw [Ty.normV_unsigned t hs]
+  rfl
+
+/-- the point set of `Box(pos, size)` is `pos ≤ p < pos + size` -/
+theorem mem_mkPosSize (t : Ty) (pos sz : Vec n) (b : Box n) (h : ∀ i : Fin n, t.Rep (pos[i] + sz[i]))
+    (hb : mkPosSize t pos sz = .ok b) (p : Vec n) :
+    Mem b p ↔ ∀ i : Fin n, pos[i] ≤ p[i] ∧ p[i] < pos[i] + sz[i] := by
+  rw [mkPosSize_spec t pos sz h] at hb
+  cases hb
+  simp [Mem]
+
+/-- `size()` is `max - pos` when the differences are representable … -/
+theorem size_spec (t : Ty) (b : Box n) (h : ∀ i : Fin n, t.Rep (b.max[i] - b.min[i])) :
+    size t b = .ok (vsub b.max b.min) := by
+  unfold size
+  exact Ty.normV_ok t _ (fun i => by simpa using h i)
+
+/-- … undefined for a signed type otherwise … -/
+theorem size_signed_overflow (t : Ty) (hs : t.signed = true) (b : Box n) (h : ¬ ∀ i : Fin n, t.Rep (b.max[i] - b.min[i])) :
+    size t b = .error .signedOverflow := by
+  unfold size
+  exact Ty.normV_signed_err t hs _ (fun h2 => h fun i => by simpa using h2 i)
+
+/-- … and the difference modulo 2^bits for an unsigned type (inverted boxes wrap around). -/
+theorem size_unsigned (t : Ty) (hs : t.signed = false) (b : Box n) :
+    size t b = .ok ((vsub b.max b.min).map (· % 2 ^ t.bits)) := by
+  unfold size
+  exact Ty.normV_unsigned t hs _
+
+/-- a non-empty box has positive size in every coordinate, and `p ∈ b ↔ pos ≤ p < pos + size` -/
+theorem mem_iff_pos_size (t : Ty) (b : Box n) (s : Vec n) (h : ∀ i : Fin n, t.Rep (b.max[i] - b.min[i]))
+    (hs : size t b = .ok s) (p : Vec n) : Mem b p ↔ ∀ i : Fin n, b.min[i] ≤ p[i] ∧ p[i] < b.min[i] + s[i] := by
+  rw [size_spec t b h] at hs
+  cases hs
+  simp only [Mem, Fin.getElem_fin, vsub_get]
+  constructor <;>
+  · intro hm i
+    have := hm i
+    omega
+
+/-- `Box(b.pos(), b.size())` is `b` again. -/
+theorem mkPosSize_size (t : Ty) (b : Box n) (h : ∀ i : Fin n, t.Rep (b.max[i] - b.min[i])) (hr : b.Rep t) :
+    (size t b >>= fun s => mkPosSize t b.min s) = .ok b := by
+  rw [size_spec t b h]
+  show mkPosSize t b.min (vsub b.max b.min) = _
+  rw [mkPosSize_spec]
+  · congr 1
+    apply box_ext <;> intro i <;> simp
+    omega
+  · intro i
+    have := (hr i).2
+    simp only [Fin.getElem_fin, vsub_get] at *
+    have e : b.min[i.val] + (b.max[i.val] - b.min[i.val]) = b.max[i.val] := by omega
+    rw [e]; exact this
+
+/-- `init_max` builds the box whose corners are the two components of the function. -/
+theorem initMax_spec (f : Fin n → Int × Int) (i : Fin n) : (initMax f).min[i] = (f i).1 ∧ (initMax f).max[i] = (f i).2 := by
+  simp
+
+theorem initMax_roundtrip (b : Box n) : initMax (fun i => (b.min[i], b.max[i])) = b := by
+  apply box_ext <;> intro i <;> simp
+
+/-- `init_dim` is the (pos, size) constructor on the two component vectors. -/
+theorem initDim_spec (t : Ty) (f : Fin n → Int × Int) :
+    initDim t f = mkPosSize t (Vector.ofFn fun i => (f i).1) (Vector.ofFn fun i => (f i).2) := by
+  simp [initDim]
+
+/-- `null` is the box with all corners 0, for every coordinate type; it is empty in dimension ≥ 1. -/
+theorem null_spec (t : Ty) (n : Nat) : null t n = .ok ⟨vzero n, vzero n⟩ := null_eq t n
+
+theorem null_empty (hn : 0 < n) : ¬ NonEmpty (⟨vzero n, vzero n⟩ : Box n) := by
+  rintro ⟨p, hp⟩
+  exact not_mem_null hn p hp
+
+/-! ## `shrink`, `stretch_absolute` -/
+
+theorem shrink_spec (t : Ty) (b : Box n) (v : Vec n)
+    (h1 : ∀ i : Fin n, t.Rep (b.min[i] + v[i])) (h2 : ∀ i : Fin n, t.Rep (b.max[i] - v[i])) :
+    shrink t b v = .ok ⟨vadd b.min v, vsub b.max v⟩ := by
+  unfold shrink
+  rw [Ty.normV_ok t _ (fun i => by simpa using h1 i), Ty.normV_ok t _ (fun i => by simpa using h2 i)]
+  rfl
+
+theorem stretchAbsolute_spec (t : Ty) (b : Box n) (v : Vec n)
+    (h1 : ∀ i : Fin n, t.Rep (b.min[i] - v[i])) (h2 : ∀ i : Fin n, t.Rep (b.max[i] + v[i])) :
+    stretchAbsolute t b v = .ok ⟨vsub b.min v, vadd b.max v⟩ := by
+  unfold stretchAbsolute
+  rw [Ty.normV_ok t _ (fun i => by simpa using h1 i), Ty.normV_ok t _ (fun i => by simpa using h2 i)]
+  rfl
+
+theorem shrink_unsigned (t : Ty) (hs : t.signed = false) (b : Box n) (v : Vec n) :
+    shrink t b v = .ok ⟨(vadd b.min v).map (· % 2 ^ t.bits), (vsub b.max v).map (· % 2 ^ t.bits)⟩ := by
+  unfold shrink
+  rw [Ty.normV_unsigned t hs, Ty.normV_unsigned t hs]
+  rfl
+
+theorem stretchAbsolute_unsigned (t : Ty) (hs : t.signed = false) (b : Box n) (v : Vec n) :
+    stretchAbsolute t b v = .ok ⟨(vsub b.min v).map (· % 2 ^ t.bits), (vadd b.max v).map (· % 2 ^ t.bits)⟩ := by
+  unfold stretchAbsolute
+  rw [Ty.normV_unsigned t hs, Ty.normV_unsigned t hs]
+  rfl
+
+theorem shrink_signed_overflow (t : Ty) (hs : t.signed = true) (b : Box n) (v : Vec n)
+    (h : ¬ ((∀ i : Fin n, t.Rep (b.min[i] + v[i])) ∧ ∀ i : Fin n, t.Rep (b.max[i] - v[i]))) :
+    shrink t b v = .error .signedOverflow := by
+  unfold shrink
+  by_cases h1 : ∀ i : Fin n, t.Rep (b.min[i] + v[i])
+  · have h2 : ¬ ∀ i : Fin n, t.Rep (b.max[i] - v[i]) := fun h2 => h ⟨h1, h2⟩
+    rw [Ty.normV_ok t _ (fun i => by simpa using h1 i), Ty.normV_signed_err t hs _ (fun h3 => h2 fun i => by simpa using h3 i)]
+    rfl
+  · rw [Ty.normV_signed_err t hs _ (fun h3 => h1 fun i => by simpa using h3 i)]
+    rfl
+
+/-- the points of the shrunk box: at distance ≥ `v` from the lower faces and > `v` … from the upper ones -/
+theorem mem_shrink (b : Box n) (v p : Vec n) :
+    Mem ⟨vadd b.min v, vsub b.max v⟩ p ↔ ∀ i : Fin n, b.min[i] + v[i] ≤ p[i] ∧ p[i] < b.max[i] - v[i] := by
+  simp [Mem]
+
+theorem mem_stretchAbsolute (b : Box n) (v p : Vec n) :
+    Mem ⟨vsub b.min v, vadd b.max v⟩ p ↔ ∀ i : Fin n, b.min[i] - v[i] ≤ p[i] ∧ p[i] < b.max[i] + v[i] := by
+  simp [Mem]
+
+/-- shrinking by non-negative amounts gives a subset, stretching a superset -/
+theorem shrink_subset (b : Box n) (v : Vec n) (hv : ∀ i : Fin n, 0 ≤ v[i]) :
+    Subset ⟨vadd b.min v, vsub b.max v⟩ b ∧ Subset b ⟨vsub b.min v, vadd b.max v⟩ := by
+  refine ⟨fun p hp i => ?_, fun p hp i => ?_⟩ <;>
+  · have := hp i
+    have := hv i
+    simp only [Fin.getElem_fin, vadd_get, vsub_get] at *
+    omega
+
+/-- `stretch_absolute(shrink(b, v), v) = b` (no overflow) -/
+theorem stretch_shrink (t : Ty) (b : Box n) (v : Vec n) (hr : b.Rep t)
+    (h1 : ∀ i : Fin n, t.Rep (b.min[i] + v[i])) (h2 : ∀ i : Fin n, t.Rep (b.max[i] - v[i])) :
+    (shrink t b v >>= fun s => stretchAbsolute t s v) = .ok b := by
+  rw [shrink_spec t b v h1 h2]
+  show stretchAbsolute t ⟨vadd b.min v, vsub b.max v⟩ v = _
+  rw [stretchAbsolute_spec]
+  · congr 1
+    apply box_ext <;> intro i <;> simp <;> omega
+  · intro i
+    have := (hr i).1
+    simp only [Fin.getElem_fin, vadd_get] at *
+    have e : b.min[i.val] + v[i.val] - v[i.val] = b.min[i.val] := by omega
+    rw [e]; exact this
+  · intro i
+    have := (hr i).2
+    simp only [Fin.getElem_fin, vsub_get] at *
+    have e : b.max[i.val] - v[i.val] + v[i.val] = b.max[i.val] := by omega
+    rw [e]; exact this
+
+/-- the size shrinks by `2 v` -/
+theorem size_shrink (b : Box n) (v : Vec n) (i : Fin n) :
+    (vsub (vsub b.max v) (vadd b.min v))[i] = (b.max[i] - b.min[i]) - 2 * v[i] := by
+  simp only [Fin.getElem_fin, vadd_get, vsub_get]
+  omega
+
+/-! ## `center` -/
+
+/-- For a box with `pos ≤ max`: `center = pos + (max - pos) / 2` (rounded down) … -/
+theorem center_spec (t : Ty) (b : Box n) (hr : b.Rep t) (hle : ∀ i : Fin n, b.min[i] ≤ b.max[i])
+    (hs : ∀ i : Fin n, t.Rep (b.max[i] - b.min[i])) :
+    center t b = .ok (Vector.ofFn fun i => b.min[i] + (b.max[i] - b.min[i]) / 2) := by
+  unfold center
+  rw [size_spec t b hs]
+  simp only [bind, Except.bind]
+  rw [seqFn_ok _ (fun i => (b.max[i] - b.min[i]) / 2)]
+  · simp only
+    have : vadd b.min (Vector.ofFn fun i : Fin n => (b.max[i] - b.min[i]) / 2) =
+        Vector.ofFn fun i : Fin n => b.min[i] + (b.max[i] - b.min[i]) / 2 := by
+      apply vec_ext; intro i; simp
+    rw [this]
+    apply Ty.normV_ok
+    intro i
+    have h1 := hle i
+    have := hr i
+    simp only [Fin.getElem_fin, Vector.getElem_ofFn] at *
+    exact t.rep_between this.1 this.2 (by omega) (by omega)
+  · intro i
+    have h1 := hle i
+    have h2 := hs i
+    simp only [Fin.getElem_fin, vsub_get] at *
+    have e : Int.tdiv (b.max[i.val] - b.min[i.val]) 2 = (b.max[i.val] - b.min[i.val]) / 2 :=
+      Int.tdiv_eq_ediv_of_nonneg (by omega)
+    have hrep : t.Rep ((b.max[i.val] - b.min[i.val]) / 2) := t.rep_between t.rep_zero h2 (by omega) (by omega)
+    simp [Ty.div, e, t.norm_ok hrep, Except.map, pure, Except.pure]
+
+/-- … it lies in the closed hull, and in the point set itself when the box is non-empty. -/
+theorem center_mem (t : Ty) (b : Box n) (hr : b.Rep t) (hne : NonEmpty b)
+    (hs : ∀ i : Fin n, t.Rep (b.max[i] - b.min[i])) : ∃ c, center t b = .ok c ∧ Mem b c := by
+  have hlt := (nonEmpty_iff b).1 hne
+  refine ⟨_, center_spec t b hr (fun i => Int.le_of_lt (hlt i)) hs, fun i => ?_⟩
+  have := hlt i
+  simp only [Fin.getElem_fin, Vector.getElem_ofFn] at *
+  omega
+
+/-! ## `corner_points` -/
+
+/-- `corner_points(b)` lists the 2^n vertices in binary counting order: the `j`-th one takes `max` in the
+    coordinates where `j` has a 1 bit (coordinate 0 = least significant) and `pos` elsewhere. -/
+theorem cornerPoints_spec (t : Ty) (b : Box n) (hr : b.Rep t) (hs : ∀ i : Fin n, t.Rep (b.max[i] - b.min[i])) :
+    cornerPoints t b =
+      .ok ((List.range (2 ^ n)).map fun j => Vector.ofFn fun i : Fin n => if j.testBit i then b.max[i] else b.min[i]) := by
+  unfold cornerPoints
+  rw [bitStrings_eq, mapM_ok _ (fun c => vadd b.min (vmul c (vsub b.max b.min)))]
+  · rw [List.map_map]
+    congr 1
+    apply List.map_congr_left
+    intro j _
+    apply vec_ext
+    intro i
+    simp only [Function.comp, bitVec, Fin.getElem_fin, vadd_get, vmul_get, vsub_get, Vector.getElem_ofFn]
+    split <;> omega
+  · intro c hc
+    obtain ⟨j, _, rfl⟩ := List.mem_map.1 hc
+    rw [size_spec t b hs]
+    simp only [bind, Except.bind]
+    have h01 : ∀ i : Fin n, (bitVec n j)[i.val] = 0 ∨ (bitVec n j)[i.val] = 1 := by
+      intro i
+      simp only [bitVec, Vector.getElem_ofFn]
+      split <;> simp
+    rw [Ty.normV_ok t (vmul (bitVec n j) (vsub b.max b.min))]
+    · simp only
+      apply Ty.normV_ok
+      intro i
+      have := hr i
+      simp only [Fin.getElem_fin, vadd_get, vmul_get, vsub_get] at *
+      rcases h01 i with h | h <;> rw [h]
+      · simpa using this.1
+      · have e : b.min[i.val] + 1 * (b.max[i.val] - b.min[i.val]) = b.max[i.val] := by omega
+        rw [e]; exact this.2
+    · intro i
+      have := hs i
+      simp only [Fin.getElem_fin, vmul_get, vsub_get] at *
+      rcases h01 i with h | h <;> rw [h]
+      · simpa using t.rep_zero
+      · simpa using this
+
+/-- for an unsigned type no guard on the size is needed: the wrapped product and sum land on the `max` coordinate
+    again, also for inverted boxes. -/
+theorem cornerPoints_unsigned (t : Ty) (hu : t.signed = false) (b : Box n) (hr : b.Rep t) :
+    cornerPoints t b =
+      .ok ((List.range (2 ^ n)).map fun j => Vector.ofFn fun i : Fin n => if j.testBit i then b.max[i] else b.min[i]) := by
+  unfold cornerPoints
+  rw [bitStrings_eq, mapM_ok _ (fun c => ((vadd b.min ((vmul c ((vsub b.max b.min).map (· % 2 ^ t.bits))).map (· % 2 ^ t.bits))).map (· % 2 ^ t.bits)))]
+  · rw [List.map_map]
+    congr 1
+    apply List.map_congr_left
+    intro j _
+    apply vec_ext
+    intro i
+    have h1 := t.emod_of_rep hu (hr i).1
+    have h2 := t.emod_of_rep hu (hr i).2
+    simp only [Function.comp, bitVec, Fin.getElem_fin, vadd_get, vmul_get, vsub_get, Vector.getElem_ofFn, Vector.getElem_map] at *
+    split
+    · rw [Int.one_mul, Int.emod_emod, Int.add_emod_emod]
+      have e : b.min[i.val] + (b.max[i.val] - b.min[i.val]) = b.max[i.val] := by omega
+      rw [e, h2]
+    · simp [h1]
+  · intro c _
+    rw [size_unsigned t hu]
+    simp only [bind, Except.bind, Ty.normV_unsigned t hu]
+
+/-- there are 2^n corners; the first is `pos`, every corner lies in the closed hull of a box with `pos ≤ max`,
+    and each of its coordinates is a coordinate of `pos` or of `max`. -/
+theorem cornerPoints_props (t : Ty) (b : Box n) (hr : b.Rep t) (hs : ∀ i : Fin n, t.Rep (b.max[i] - b.min[i])) :
+    ∃ l, cornerPoints t b = .ok l ∧ l.length = 2 ^ n ∧ l.head? = some b.min ∧
+      (∀ c ∈ l, ∀ i : Fin n, c[i] = b.min[i] ∨ c[i] = b.max[i]) ∧
+      ((∀ i : Fin n, b.min[i] ≤ b.max[i]) → ∀ c ∈ l, MemClosed b c) := by
+  refine ⟨_, cornerPoints_spec t b hr hs, by simp, ?_, ?_, ?_⟩
+  · have : 2 ^ n = (2 ^ n - 1) + 1 := by have := Nat.two_pow_pos n; omega
+    rw [this, List.range_succ_eq_map]
+    simp only [List.map_cons, List.head?_cons, Option.some.injEq]
+    apply vec_ext
+    intro i
+    simp
+  · intro c hc i
+    obtain ⟨j, _, rfl⟩ := List.mem_map.1 hc
+    simp only [Fin.getElem_fin, Vector.getElem_ofFn]
+    split <;> simp
+  · intro hle c hc i
+    obtain ⟨j, _, rfl⟩ := List.mem_map.1 hc
+    have := hle i
+    simp only [Fin.getElem_fin, Vector.getElem_ofFn] at *
+    split <;> omega
+
+/-- the corner points are exactly the vertices: the points each of whose coordinates is the `pos` or the `max` coordinate. -/
+theorem mem_cornerPoints (t : Ty) (b : Box n) (hr : b.Rep t) (hs : ∀ i : Fin n, t.Rep (b.max[i] - b.min[i])) (c : Vec n) :
+    (∃ l, cornerPoints t b = .ok l ∧ c ∈ l) ↔ ∀ i : Fin n, c[i] = b.min[i] ∨ c[i] = b.max[i] := by
+  rw [cornerPoints_spec t b hr hs]
+  constructor
+  · rintro ⟨l, hl, hc⟩ i
+    cases hl
+    obtain ⟨j, _, rfl⟩ := List.mem_map.1 hc
+    simp only [Fin.getElem_fin, Vector.getElem_ofFn]
+    split <;> simp
+  · intro h
+    refine ⟨_, rfl, ?_⟩
+    obtain ⟨j, hj, hb⟩ := exists_testBit (fun i => if hi : i < n then decide (c[i] ≠ b.min[i]) else false) n
+    refine List.mem_map.2 ⟨j, by simpa using hj, ?_⟩
+    apply vec_ext
+    intro i
+    have := h i
+    simp only [Fin.getElem_fin, Vector.getElem_ofFn, hb i.val i.isLt, i.isLt, dite_true] at *
+    by_cases e : c[i.val] = b.min[i.val]
+    · simp [e]
+    · simp only [ne_eq, e, not_false_eq_true, decide_true, if_true]
+      omega
+
+/-! ## comparison -/
+
+/-- `==` is equality of the two corners (sizes representable). -/
+theorem eq_spec (t : Ty) (a b : Box n) (ha : ∀ i : Fin n, t.Rep (a.max[i] - a.min[i]))
+    (hb : ∀ i : Fin n, t.Rep (b.max[i] - b.min[i])) : eq t a b = .ok (decide (a = b)) := by
+  unfold eq
+  by_cases h : a.min = b.min
+  · rw [(vecEq_iff _ _).2 h, size_spec t a ha, size_spec t b hb]
+    simp only [if_true, bind, Except.bind, pure, Except.pure]
+    congr 1
+    rw [Bool.eq_iff_iff, vecEq_iff]
+    simp only [decide_eq_true_eq]
+    constructor
+    · intro hv
+      apply box_ext
+      · intro i; rw [h]
+      · intro i
+        have := congrArg (fun v : Vec n => v[i]) hv
+        have h' := congrArg (fun v : Vec n => v[i]) h
+        simp only [Fin.getElem_fin, vsub_get] at *
+        omega
+    · intro e; rw [e]
+  · have : vecEq a.min b.min = false := by
+      rw [← Bool.not_eq_true, vecEq_iff]; exact h
+    have hne : a ≠ b := fun e => h (by rw [e])
+    simp [this, hne, pure, Except.pure]
+
+/-- unsigned: also for inverted boxes, whose sizes wrap around, `==` is equality of the corners
+    (the wrapped size together with `pos` still determines `max`). -/
+theorem eq_unsigned (t : Ty) (hu : t.signed = false) (a b : Box n) (ha : a.Rep t) (hb : b.Rep t) :
+    eq t a b = .ok (decide (a = b)) := by
+  unfold eq
+  by_cases h : a.min = b.min
+  · rw [(vecEq_iff _ _).2 h, size_unsigned t hu, size_unsigned t hu]
+    simp only [if_true, bind, Except.bind, pure, Except.pure]
+    congr 1
+    rw [Bool.eq_iff_iff, vecEq_iff]
+    simp only [decide_eq_true_eq]
+    constructor
+    · intro hv
+      apply box_ext
+      · intro i; rw [h]
+      · intro i
+        have h0 := congrArg (fun v : Vec n => v[i]) hv
+        have h' := congrArg (fun v : Vec n => v[i]) h
+        have h1 := t.emod_of_rep hu (ha i).2
+        have h2 := t.emod_of_rep hu (hb i).2
+        simp only [Fin.getElem_fin, vsub_get, Vector.getElem_map] at *
+        have e1 : ((a.max[i.val] - a.min[i.val]) % 2 ^ t.bits + a.min[i.val]) % 2 ^ t.bits = a.max[i.val] := by
+          rw [Int.emod_add_emod]
+          have : a.max[i.val] - a.min[i.val] + a.min[i.val] = a.max[i.val] := by omega
+          rw [this, h1]
+        have e2 : ((b.max[i.val] - b.min[i.val]) % 2 ^ t.bits + b.min[i.val]) % 2 ^ t.bits = b.max[i.val] := by
+          rw [Int.emod_add_emod]
+          have : b.max[i.val] - b.min[i.val] + b.min[i.val] = b.max[i.val] := by omega
+          rw [this, h2]
+        rw [← e1, ← e2, h0, h']
+    · intro e; rw [e]
+  · have : vecEq a.min b.min = false := by
+      rw [← Bool.not_eq_true, vecEq_iff]; exact h
+    have hne : a ≠ b := fun e => h (by rw [e])
+    simp [this, hne, pure, Except.pure]
+
+/-- `!=` is the negation of `==`. -/
+theorem ne_spec (t : Ty) (a b : Box n) : ne t a b = (eq t a b).map (!·) := by
+  unfold ne
+  cases eq t a b <;> rfl
+
+/-- `<` is `std::pair`'s order on (pos, size), both compared lexicographically. -/
+theorem lt_spec (t : Ty) (a b : Box n) (ha : ∀ i : Fin n, t.Rep (a.max[i] - a.min[i]))
+    (hb : ∀ i : Fin n, t.Rep (b.max[i] - b.min[i])) :
+    lt t a b = .ok (pairLt a.min.toList (vsub a.max a.min).toList b.min.toList (vsub b.max b.min).toList) := by
+  unfold lt
+  rw [size_spec t a ha, size_spec t b hb]
+  rfl
+
+/-- the key (pos, size) determines the box -/
+theorem key_inj (a b : Box n) (h1 : a.min.toList = b.min.toList)
+    (h2 : (vsub a.max a.min).toList = (vsub b.max b.min).toList) : a = b := by
+  have e1 : a.min = b.min := Vector.toList_inj.1 h1
+  have e2 : vsub a.max a.min = vsub b.max b.min := Vector.toList_inj.1 h2
+  apply box_ext
+  · intro i; rw [e1]
+  · intro i
+    have := congrArg (fun v : Vec n => v[i]) e2
+    have h' := congrArg (fun v : Vec n => v[i]) e1
+    simp only [Fin.getElem_fin, vsub_get] at *
+    omega
+
+/-- `<` is a strict total order on boxes compatible with `==`: irreflexive, asymmetric, transitive, and two boxes
+    neither of which is smaller are equal. -/
+theorem lt_strict_total (t : Ty) (a b c : Box n) (ha : ∀ i : Fin n, t.Rep (a.max[i] - a.min[i]))
+    (hb : ∀ i : Fin n, t.Rep (b.max[i] - b.min[i])) (hc : ∀ i : Fin n, t.Rep (c.max[i] - c.min[i])) :
+    lt t a a = .ok false ∧
+    (lt t a b = .ok true → lt t b a = .ok false) ∧
+    (lt t a b = .ok true → lt t b c = .ok true → lt t a c = .ok true) ∧
+    (lt t a b = .ok false → lt t b a = .ok false → a = b) := by
+  rw [lt_spec t a a ha ha, lt_spec t a b ha hb, lt_spec t b a hb ha, lt_spec t b c hb hc, lt_spec t a c ha hc]
+  refine ⟨by rw [pairLt_irrefl], ?_, ?_, ?_⟩
+  · intro h
+    rw [pairLt_asymm _ _ _ _ (by simpa using h)]
+  · intro h1 h2
+    rw [pairLt_trans _ _ b.min.toList (vsub b.max b.min).toList _ _ (by simp) (by simp) (by simpa using h1) (by simpa using h2)]
+  · intro h1 h2
+    obtain ⟨e1, e2⟩ := pairLt_total _ _ _ _ (by simp) (by simp) (Except.ok.inj h1) (Except.ok.inj h2)
+    exact key_inj a b e1 e2
+
+/-! ## `interval_distance`, `distance` -/
+
+/-- with all differences representable the function computes `idExact`, its control flow on ℤ … -/
+theorem intervalDistance_spec (t : Ty) (i1 i2 : Int × Int) (g : IdGuard t i1 i2) :
+    intervalDistance t i1 i2 = .ok (idExact i1 i2) := intervalDistance_exact t i1 i2 g
+
+/-- … for an unsigned type each difference and the final `max` are taken modulo 2^bits. -/
+theorem intervalDistance_unsigned (t : Ty) (hs : t.signed = false) (i1 i2 : Int × Int) :
+    ∃ d, intervalDistance t i1 i2 = .ok d ∧ 0 ≤ d ∧ d < 2 ^ t.bits := by
+  have hp := two_pow_pos t.bits
+  have hm : ∀ x : Int, 0 ≤ x % 2 ^ t.bits ∧ x % 2 ^ t.bits < 2 ^ t.bits :=
+    fun x => ⟨Int.emod_nonneg _ (by omega), Int.emod_lt_of_pos _ hp⟩
+  unfold intervalDistance
+  simp only [t.norm_unsigned hs, bind, Except.bind, pure, Except.pure]
+  split
+  · split
+    · exact ⟨_, rfl, (hm _).1, (hm _).2⟩
+    · refine ⟨_, rfl, ?_, ?_⟩
+      · have := (hm (i1.2 - i2.2)).1; have := (hm (i2.1 - i1.1)).1; omega
+      · have := (hm (i1.2 - i2.2)).2; have := (hm (i2.1 - i1.1)).2; omega
+  · split
+    · exact ⟨_, rfl, (hm _).1, (hm _).2⟩
+    · refine ⟨_, rfl, ?_, ?_⟩
+      · have := (hm (i2.2 - i1.2)).1; have := (hm (i1.1 - i2.1)).1; omega
+      · have := (hm (i2.2 - i1.2)).2; have := (hm (i1.1 - i2.1)).2; omega
+
+/-- Disjoint non-empty intervals: the distance is the gap between them (≥ 0, 0 when they touch). -/
+theorem idExact_disjoint (f1 s1 f2 s2 : Int) (h1 : f1 < s1) (h2 : f2 < s2) (hd : s1 ≤ f2 ∨ s2 ≤ f1) :
+    idExact (f1, s1) (f2, s2) = Max.max f1 f2 - Min.min s1 s2 ∧ 0 ≤ idExact (f1, s1) (f2, s2) := by
+  unfold idExact
+  simp only
+  split <;> simp only <;> split <;> omega
+
+/-- Partially overlapping intervals (neither contains the other): minus the length of the overlap. -/
+theorem idExact_overlap (f1 s1 f2 s2 : Int) (h : f1 < f2 ∧ f2 < s1 ∧ s1 < s2) :
+    idExact (f1, s1) (f2, s2) = -(s1 - f2) ∧ idExact (f2, s2) (f1, s1) = -(s1 - f2) := by
+  unfold idExact
+  simp only
+  constructor <;> split <;> simp only <;> split <;> omega
+
+/-- An interval strictly inside another: minus the length of the shorter of the two remaining parts,
+    whichever argument order. -/
+theorem idExact_nested (f1 s1 f2 s2 : Int) (h : f1 < f2 ∧ f2 < s2 ∧ s2 < s1) :
+    idExact (f1, s1) (f2, s2) = -(Min.min (s1 - s2) (f2 - f1)) ∧ idExact (f2, s2) (f1, s1) = -(Min.min (s1 - s2) (f2 - f1)) := by
+  unfold idExact
+  simp only
+  constructor <;> split <;> simp only <;> split <;> omega
+
+/-- A positive distance means a gap; a negative one means the non-empty intervals share a point. -/
+theorem idExact_sign (f1 s1 f2 s2 : Int) (h1 : f1 < s1) (h2 : f2 < s2) :
+    (0 < idExact (f1, s1) (f2, s2) ↔ s1 < f2 ∨ s2 < f1) ∧
+    (idExact (f1, s1) (f2, s2) < 0 → Max.max f1 f2 < Min.min s1 s2) := by
+  unfold idExact
+  simp only
+  constructor
+  · split <;> simp only <;> split <;> omega
+  · split <;> simp only <;> split <;> omega
+
+/-- `box::distance` applies `interval_distance` to the `i`-th intervals of the two boxes. -/
+theorem distance_spec (t : Ty) (a b : Box n) (g : ∀ i : Fin n, IdGuard t (interval a i) (interval b i)) :
+    distance t a b = .ok (Vector.ofFn fun i => idExact (a.min[i], a.max[i]) (b.min[i], b.max[i])) := by
+  unfold distance
+  exact seqFn_ok _ _ (fun i => intervalDistance_exact t _ _ (g i))
+
+/-- one positive coordinate of the distance separates the boxes -/
+theorem not_intersects_of_distance_pos (a b : Box n) (ha : NonEmpty a) (hb : NonEmpty b) (i : Fin n)
+    (h : 0 < idExact (a.min[i], a.max[i]) (b.min[i], b.max[i])) : intersects a b = false := by
+  have ha' := (nonEmpty_iff a).1 ha i
+  have hb' := (nonEmpty_iff b).1 hb i
+  rw [intersects_false_iff]
+  refine ⟨i, ?_⟩
+  have := ((idExact_sign _ _ _ _ ha' hb').1).1 h
+  omega
+
+/-- all coordinates negative: the boxes intersect -/
+theorem intersects_of_distance_neg (a b : Box n) (ha : NonEmpty a) (hb : NonEmpty b)
+    (h : ∀ i : Fin n, idExact (a.min[i], a.max[i]) (b.min[i], b.max[i]) < 0) : intersects a b = true := by
+  rw [intersects_iff]
+  intro i
+  have ha' := (nonEmpty_iff a).1 ha i
+  have hb' := (nonEmpty_iff b).1 hb i
+  have := (idExact_sign _ _ _ _ ha' hb').2 (h i)
+  omega
+
+/-! ## Non-vacuity and boundary conventions on concrete values -/
+
+private def bx (a b c d : Int) : Box 2 := ⟨#v[a, b], #v[c, d]⟩
+
+-- the guards are satisfiable by non-trivial boxes of `int` and `unsigned`
+example : (bx (-1) 0 2 3).Rep Ty.int ∧ NonEmpty (bx (-1) 0 2 3) ∧ ∀ i : Fin 2, Ty.int.Rep ((bx (-1) 0 2 3).max[i] - (bx (-1) 0 2 3).min[i]) := by
+  refine ⟨by decide, ⟨#v[0, 1], by decide⟩, by decide⟩
+example : (bx 1 0 4 6).Rep Ty.uint ∧ ∀ i : Fin 2, Ty.uint.Rep ((bx 1 0 4 6).max[i] - (bx 1 0 4 6).min[i]) := by
+  refine ⟨by decide, by decide⟩
+-- inclusive minimum, exclusive maximum
+example : containsPoint (bx 0 0 2 2) #v[0, 0] = true ∧ containsPoint (bx 0 0 2 2) #v[2, 1] = false ∧
+    containsPoint (bx 0 0 2 2) #v[1, 2] = false := by decide +kernel
+-- touching boxes do not intersect and their intersection is the null box; overlapping ones do
+example : intersects (bx 0 0 2 2) (bx 2 0 4 2) = false ∧ intersection Ty.int (bx 0 0 2 2) (bx 2 0 4 2) = .ok (bx 0 0 0 0) := by decide +kernel
+example : intersection Ty.int (bx 0 0 2 2) (bx 1 (-1) 4 1) = .ok (bx 1 0 2 1) := by decide +kernel
+-- the non-emptiness hypotheses cannot be dropped: an empty (inverted) inner box is a subset of everything but not `contain`ed …
+example : contains (bx 0 0 1 1) (bx 5 5 4 4) = false ∧ ¬ NonEmpty (bx 5 5 4 4) := by
+  refine ⟨by decide, ?_⟩
+  rw [nonEmpty_iff]; decide
+-- … and `intersects` holds for two boxes one of which is empty in one coordinate only when …: here it is false for a degenerate box inside
+example : intersects (bx 0 0 3 3) (bx 1 1 1 2) = true ∧ ¬ NonEmpty (bx 1 1 1 2) := by
+  refine ⟨by decide, ?_⟩
+  rw [nonEmpty_iff]; decide
+-- bounding box, corner points (binary counting order), centre, size
+example : extendBox (bx 1 2 3 5) (bx 0 1 2 2) = bx 0 1 3 5 := by decide +kernel
+example : cornerPoints Ty.int (bx (-1) 0 2 3) = .ok [#v[-1, 0], #v[2, 0], #v[-1, 3], #v[2, 3]] := by decide +kernel
+example : center Ty.int (bx (-1) 0 2 3) = .ok #v[0, 1] ∧ size Ty.int (bx (-1) 0 2 3) = .ok #v[3, 3] := by decide +kernel
+-- unsigned: the size of an inverted box wraps around, a signed one near the limits is undefined
+example : size Ty.uint (bx 3 0 2 3) = .ok #v[4294967295, 3] := by decide +kernel
+example : size Ty.int (bx (-2147483648) 0 1 0) = .error .signedOverflow := by decide +kernel
+-- `extend_bounding_box(box, point)` treats the point as a closed corner: under the half-open reading the point
+-- it was extended by is *not* a member when it lies on or beyond `max`
+example : extendPoint (bx 1 1 1 1) #v[3, 4] = bx 1 1 3 4 ∧ containsPoint (extendPoint (bx 1 1 1 1) #v[3, 4]) #v[3, 4] = false := by decide +kernel
+-- `interval_distance` is not symmetric when the two upper ends coincide and one interval contains the other
+example : intervalDistance Ty.int (0, 3) (1, 3) = .ok (-2) ∧ intervalDistance Ty.int (1, 3) (0, 3) = .ok 0 := by decide +kernel
+example : distance Ty.int (bx 1 3 3 5) (bx 5 2 6 4) = .ok #v[2, -1] := by decide +kernel
+
+end Fcppt.C13
